@@ -403,6 +403,7 @@ EXC_WITNESSES = [
     ("10^1000", "OverflowError: pow"), ("exp 1000", "OverflowError"), ("floor(10^400)", "OverflowError int->float"), ("10^400/10^400", "OverflowError: int division"),
     ("5 round 1.5", "TypeError: round digits"), ("2^1023*2", "inf result: final conversion"), ("9e307*10.0", "inf result"), ("1.5e308+1.5e308", "inf result"),
     ("2^1023*2-2^1023*2", "nan result: final conversion"), ("2^1023/0.1", "inf"), ("ceil(2^1023*2)", "OverflowError ceil(inf)"), ("trunc(2^1023*2-2^1023*2)", "ValueError trunc(nan)"),
+    ("(" * 200 + "1" + ")" * 200, "RecursionError: 200 nested parentheses"), ("-" * 3000 + "1", "RecursionError: 3000 unary minus signs"),
     ("1 mod 0.0", "mod by float zero"), ("tan 1e308", "large"), ("sqrt(2^1023*2)", "inf"), ("(2^1023*2) round 2", "round(inf)"), ("1e400", "huge literal"),
 ]
 
@@ -532,6 +533,20 @@ def expr_totality(rep: C.Report, quick: bool) -> None:
         return
     ob.conditions = ob.queries = ob.paths = 1
     need = [ValueError, OverflowError, ZeroDivisionError, TypeError]
+    # a recursive-descent evaluator (cycle in the call graph of expr_fn's nested functions) raises RecursionError on
+    # deeply nested input: the barrier must cover that class too
+    import ast as _ast
+
+    nested = {n.name: n for n in _ast.walk(fn) if isinstance(n, _ast.FunctionDef) and n is not fn}
+    calls = {name: {c.func.id for c in _ast.walk(node) if isinstance(c, _ast.Call) and isinstance(c.func, _ast.Name) and c.func.id in nested} for name, node in nested.items()}
+
+    def _reaches(a, b, seen=()):
+        return any(c == b or (c not in seen and _reaches(c, b, seen + (c,))) for c in calls.get(a, ()))
+
+    recursive = sorted(n for n in nested if _reaches(n, n))
+    rep.extra["expr_recursive_functions"] = recursive
+    if recursive:
+        need.append(RecursionError)
     classes = covered or set()
     missing = [e.__name__ for e in need if not _covers(classes, e)]
     rep.extra["expr_barrier_classes"] = sorted(classes)
@@ -556,11 +571,27 @@ def expr_totality(rep: C.Report, quick: bool) -> None:
                 hits.append((e, f"raises {type(ex).__name__}: {ex}"))
                 c = Wtp(quiet=True, quiet_output=True)
                 c.start_page("T")
-        ob.samples.append({"uncovered_statements": uncovered, "classes_not_caught": missing, "replayed_witnesses": hits[:6]})
+        ob.samples.append({"uncovered_statements": uncovered, "classes_not_caught": missing, "replayed_witnesses": [(e[:40], w) for e, w in hits[:6]]})
         if hits:
             vs = []
-            for e, what in hits[:3]:
-                vs.append(rep.violation("expand(" + repr("{{#expr:" + e + "}}") + ")", f"expand() {what}", {"doc": "{{#expr:" + e + "}}"}))
+            def _pretty(e):
+                if len(e) < 60:
+                    return repr("{{#expr:" + e + "}}")
+                if e.startswith("("):
+                    n = len(e) - len(e.lstrip("("))
+                    return f"'{{{{#expr:' + '(' * {n} + {e.strip('()')!r} + ')' * {n} + '}}}}'"
+                n = len(e) - len(e.lstrip("-"))
+                return f"'{{{{#expr:' + '-' * {n} + {e.lstrip('-')!r} + '}}}}'"
+
+            # one representative per exception class
+            seen_cls, picked = set(), []
+            for e, what in hits:
+                cls = what.split(":")[0]
+                if cls not in seen_cls:
+                    seen_cls.add(cls)
+                    picked.append((e, what))
+            for e, what in picked[:4]:
+                vs.append(rep.violation("expand(" + _pretty(e) + ")", f"expand() {what}", {"doc": "{{#expr:" + e + "}}"}))
             ob.verdict = C.VIOLATED if any(v.known is None for v in vs) else C.KNOWN
             ob.confirmed_conditions = 1
         else:
